@@ -322,42 +322,8 @@ func checkKeepRule(p *core.Program, r *core.Report, a *hubAnchors, R1 string) {
 		r.Unresolved(R1, "hub.Hub.localService / connections")
 		return
 	}
-	isStrCmp := func(v ssa.Value) *ssa.BinOp {
-		bo, ok := v.(*ssa.BinOp)
-		if !ok {
-			return nil
-		}
-		switch bo.Op {
-		case token.GTR, token.LSS, token.GEQ, token.LEQ:
-		default:
-			return nil
-		}
-		if b, ok := bo.X.Type().Underlying().(*types.Basic); !ok || b.Info()&types.IsString == 0 {
-			return nil
-		}
-		return bo
-	}
-	var cands []*ssa.Function
-	for _, fn := range a.fns {
-		if fn.Signature.Results().Len() != 1 || !types.Identical(fn.Signature.Results().At(0).Type(), types.Typ[types.Bool]) {
-			continue
-		}
-		has := false
-		core.EachInstr(fn, func(in ssa.Instruction) {
-			if v, ok := in.(ssa.Value); ok && isStrCmp(v) != nil {
-				has = true
-			}
-		})
-		hasSvc := false
-		for _, pa := range fn.Params {
-			if core.TypeIs(pa.Type(), apiPath, "ServiceDetails") {
-				hasSvc = true
-			}
-		}
-		if has && hasSvc && fn.Parent() == nil {
-			cands = append(cands, fn)
-		}
-	}
+	isStrCmp := strOrderCmp
+	cands := decisionFuncs(a)
 	if len(cands) != 1 {
 		r.Fail(R1, "decision function", "", fmt.Sprintf("expected exactly one boolean hub function comparing SKIs by order, found %d", len(cands)))
 		return
@@ -598,4 +564,48 @@ func checkKeepRule(p *core.Program, r *core.Report, a *hubAnchors, R1 string) {
 		}
 	}
 	_ = fConns
+}
+
+// strOrderCmp: v is an ordered comparison (<, >, <=, >=) of two strings.
+func strOrderCmp(v ssa.Value) *ssa.BinOp {
+	bo, ok := v.(*ssa.BinOp)
+	if !ok {
+		return nil
+	}
+	switch bo.Op {
+	case token.GTR, token.LSS, token.GEQ, token.LEQ:
+	default:
+		return nil
+	}
+	if b, ok := bo.X.Type().Underlying().(*types.Basic); !ok || b.Info()&types.IsString == 0 {
+		return nil
+	}
+	return bo
+}
+
+// decisionFuncs: the hub's double-connection decision - top-level boolean functions taking the remote
+// ServiceDetails that compare strings by order.
+func decisionFuncs(a *hubAnchors) []*ssa.Function {
+	var cands []*ssa.Function
+	for _, fn := range a.fns {
+		if fn.Signature.Results().Len() != 1 || !types.Identical(fn.Signature.Results().At(0).Type(), types.Typ[types.Bool]) {
+			continue
+		}
+		has := false
+		core.EachInstr(fn, func(in ssa.Instruction) {
+			if v, ok := in.(ssa.Value); ok && strOrderCmp(v) != nil {
+				has = true
+			}
+		})
+		hasSvc := false
+		for _, pa := range fn.Params {
+			if core.TypeIs(pa.Type(), apiPath, "ServiceDetails") {
+				hasSvc = true
+			}
+		}
+		if has && hasSvc && fn.Parent() == nil {
+			cands = append(cands, fn)
+		}
+	}
+	return cands
 }
